@@ -11,6 +11,18 @@ BASE_NOTE = ("Trusted base: rustc front end/MIR construction as dumped by engine
              "crates assumed total. ")
 
 CLAIMS = {
+    "C12": dict(
+        category="other",
+        technique="abstract interpretation of the runner loop against logging stand-ins (loop unrolling); cell-wise abstract interpretation of verify; data-flow checks of the CLI glue",
+        text=("RunnerConfig::run is interpreted abstractly with parser, compiler and the machine's entry points replaced by "
+              "stand-ins that log calls; for budgets 0/1/n, interrupt/reset lists with duplicates, cycle 0, beyond the end and a "
+              "halt at some cycle, the per-cycle call log and the reported cycle count must equal the property's reference loop - "
+              "independent of how the loop is written. verify is interpreted on all 27 expectation-subset x match/mismatch cells "
+              "(mismatch cells are whole complements, not samples). Exit status, print-before-fail, radix selection, checked u8 "
+              "parsing and the 13-way configuration mapping are decided by dominance and data-flow on MIR."),
+        note=("Not decided: the printed text (format strings), clap/structopt argument handling, time_taken. The stand-ins assume "
+              "the machine entry points have no effect on the runner's own variables (they take &mut Machine only)."),
+        design="3/C12"),
     "C08": dict(
         category="other",
         technique="per-function dependence (information-flow) analysis on MIR + abstract interpretation on bit-defined sub-domains",
